@@ -130,9 +130,7 @@ pub const WITNESSES: [(&str, &str, &str); 5] = [
 /// hand-written grammars that are always part of the behavioural batch: one per mechanism in which the two back-ends are
 /// built differently (atomic sequences / repetitions and the implicit skip, the skip with overlapping WHITESPACE / COMMENT,
 /// the modifier wrappers entered from an atomic caller, flattened sequences around stack operations)
-pub const PROBES: [&str; 11] = [
-    // before the restorer knew POP_ALL (fix 5dcbc11) the two back-ends differed here on `xy5y` (Coq: C02_dirty_atomic_rep_refuted)
-    "r0 = @{ PUSH(\"x\") ~ PUSH(\"y\") ~ (\"5\" | POP_ALL)* ~ DROP }\n",
+pub const PROBES: [&str; 10] = [
     "r0 = @{ \"x\" ~ \"y\" ~ \"x\" }\nWHITESPACE = _{ \" \" }\n",
     "r0 = @{ \"x\"* ~ \"y\" }\nr1 = { \"x\"* ~ \"y\" }\nWHITESPACE = _{ \" \" }\n",
     "r0 = { \"x\" ~ \"y\" }\nWHITESPACE = { \" \" | \"5 \" }\nCOMMENT = { \"5\" }\n",
@@ -176,6 +174,26 @@ fn print_unicode(w: &mut dyn Write) {
 }
 
 fn rust_str(s: &str) -> String { format!("{:?}", s) }
+
+/// A grammar whose VM run touches the call limit on some short input has a non-progressing loop (the validator accepts e.g.
+/// `PEEK_ALL*`); the generated parser has loops without any call-limit check (`repeat` of primitives) and would hang the batch.
+fn vm_terminates(text: &str, maxlen: usize) -> bool {
+    pest::set_call_limit(None);
+    let opt = match catch(|| pest_meta::parse_and_optimize(text)) { Ok(Ok((_, o))) => o, _ => return false };
+    let names: Vec<String> = opt.iter().map(|r| r.name.clone()).collect();
+    let vm = pest_vm::Vm::new(opt);
+    let inputs = all_strings(&["x", "y", " ", "5"], maxlen);
+    pest::set_call_limit(std::num::NonZeroUsize::new(2000));
+    let mut ok = true;
+    'outer: for n in &names {
+        for i in &inputs {
+            let r = catch(|| vm.parse(n, i).map(|_| ()).map_err(|e| matches!(e.variant, pest::error::ErrorVariant::CustomError { .. })));
+            if let Ok(Err(true)) = r { ok = false; break 'outer; }
+        }
+    }
+    pest::set_call_limit(None);
+    ok
+}
 
 fn main() {
     quiet_panics();
@@ -229,6 +247,7 @@ fn main() {
                 if !matches!(catch(|| pest_meta::parse_and_optimize(&text)), Ok(Ok(_))) { continue; }
                 // the emitted code must at least be a Rust file (otherwise the whole batch would not compile; tv reports those)
                 if derive_tokens(&text).ok().and_then(|ts| syn::parse2::<syn::File>(ts).ok()).is_none() { continue; }
+                if !vm_terminates(&text, 4) { continue; }
                 texts.push(text);
             }
             writeln!(w, "// GENERATED by `c02 batch` - {} grammars, extras={}", texts.len(), extras).unwrap();
